@@ -263,6 +263,19 @@ pub open spec fn wf_stream_level(fc: FlowControl, in_flight: int) -> bool {
 }
 
 /// a WINDOW_UPDATE is owed (FlowControl::unclaimed_capacity is Some)
+/// What `Context::waker().clone()` yields (opaque).
+pub struct Context { pub tag: u8 }
+impl Context {
+    #[verifier::external_body]
+    pub fn waker(&self) -> (r: &Waker) { unimplemented!() }
+}
+impl Clone for Waker {
+    #[verifier::external_body]
+    fn clone(&self) -> (r: Waker) { unimplemented!() }
+}
+
+pub enum Poll<T> { Ready(T), Pending }
+
 pub open spec fn update_due(fc: FlowControl) -> bool {
     fc.a() > fc.w() && fc.a() - fc.w() >= fc.w() / 2
 }
@@ -515,6 +528,89 @@ impl Recv {
     //@spec         // Complete means: no connection-level update is due any more and the stream queue is drained
     //@spec         r == Ok::<BufferStatus, IoError>(BufferStatus::Complete) ==> !update_due(final(self).flow) && final(self).pending_window_updates.ghost_len == 0,
     //@spec         final(self).flow.a() == old(self).flow.a(),
+    //@end
+
+    // ---- handing events to the application (C01: in order, each exactly once, a poll that takes nothing changes nothing;
+    // C06: a poll that returns Pending has stored the waker; C07: a poll on an empty queue of a finished or failed stream
+    // resolves).  `?` on Result inside a fn returning Poll<Option<Result<..>>> is written out (listed substitution:
+    // Err(e) => return Poll::Ready(Some(Err(e))), which is what core's FromResidual impl does).
+    //@extract src/proto/streams/recv.rs Recv::schedule_recv
+    //@subst schedule_recv<T>(=>schedule_recv<T>(
+    //@subst_re Poll<Option<Result<T, proto::Error>>>=>Poll<Option<Result<T, Error>>>
+    //@subst if stream.state.ensure_recv_open()? {=>let _o = stream.state.ensure_recv_open(); if let Err(e) = _o { return Poll::Ready(Some(Err(e))); } if _o.unwrap() {
+    //@ret r
+    //@spec     ensures
+    //@spec         *final(self) == *old(self),
+    //@spec         match old(stream).state.recv_open_spec() {
+    //@spec             Err(e) => r == Poll::<Option<Result<T, Error>>>::Ready(Some(Err(e))) && *final(stream) == *old(stream),
+    //@spec             Ok(false) => r == Poll::<Option<Result<T, Error>>>::Ready(None) && *final(stream) == *old(stream),
+    //@spec             Ok(true) => r is Pending && final(stream).recv_task is Some && *final(stream) == (Stream { recv_task: final(stream).recv_task, ..*old(stream) }),
+    //@spec         },
+    //@end
+
+    //@extract src/proto/streams/recv.rs Recv::poll_data
+    //@subst_re Poll<Option<Result<DataEvent, proto::Error>>>=>Poll<Option<Result<DataEvent, Error>>>
+    //@ret r
+    //@spec     ensures
+    //@spec         *final(self) == (Recv { buffer: final(self).buffer, ..*old(self) }),
+    //@spec         // the next DATA event, exactly once
+    //@spec         (old(stream).pending_recv@.len() > 0 && old(stream).pending_recv@[0] is Data) ==>
+    //@spec             r == Poll::<Option<Result<DataEvent, Error>>>::Ready(Some(Ok(old(stream).pending_recv@[0]->Data_0)))
+    //@spec             && final(stream).pending_recv@ == old(stream).pending_recv@.drop_first()
+    //@spec             && *final(stream) == (Stream { pending_recv: final(stream).pending_recv, ..*old(stream) }),
+    //@spec         // something else is next (trailers): the body is over, and that event STAYS the next one
+    //@spec         (old(stream).pending_recv@.len() > 0 && !(old(stream).pending_recv@[0] is Data)) ==>
+    //@spec             r == Poll::<Option<Result<DataEvent, Error>>>::Ready(None)
+    //@spec             && final(stream).pending_recv@ =~= old(stream).pending_recv@
+    //@spec             && *final(stream) == (Stream { pending_recv: final(stream).pending_recv, recv_task: None, ..*old(stream) }),
+    //@spec         // nothing queued: decided by the state
+    //@spec         old(stream).pending_recv@.len() == 0 ==> final(stream).pending_recv@ == old(stream).pending_recv@ && match old(stream).state.recv_open_spec() {
+    //@spec             Err(e) => r == Poll::<Option<Result<DataEvent, Error>>>::Ready(Some(Err(e))),
+    //@spec             Ok(false) => r == Poll::<Option<Result<DataEvent, Error>>>::Ready(None),
+    //@spec             Ok(true) => r is Pending && final(stream).recv_task is Some,
+    //@spec         },
+    //@end
+
+    //@extract src/proto/streams/recv.rs Recv::poll_trailers
+    //@subst_re Poll<Option<Result<HeaderMap, proto::Error>>>=>Poll<Option<Result<u8, Error>>>
+    //@ret r
+    //@spec     ensures
+    //@spec         *final(self) == (Recv { buffer: final(self).buffer, ..*old(self) }),
+    //@spec         (old(stream).pending_recv@.len() > 0 && old(stream).pending_recv@[0] is Trailers) ==>
+    //@spec             r == Poll::<Option<Result<u8, Error>>>::Ready(Some(Ok(old(stream).pending_recv@[0]->Trailers_0)))
+    //@spec             && final(stream).pending_recv@ == old(stream).pending_recv@.drop_first(),
+    //@spec         // the body is not consumed yet: wait, and the queue keeps its order
+    //@spec         (old(stream).pending_recv@.len() > 0 && !(old(stream).pending_recv@[0] is Trailers)) ==>
+    //@spec             r is Pending && final(stream).recv_task is Some && final(stream).pending_recv@ =~= old(stream).pending_recv@,
+    //@spec         old(stream).pending_recv@.len() == 0 ==> final(stream).pending_recv@ == old(stream).pending_recv@ && match old(stream).state.recv_open_spec() {
+    //@spec             Err(e) => r == Poll::<Option<Result<u8, Error>>>::Ready(Some(Err(e))),
+    //@spec             Ok(false) => r == Poll::<Option<Result<u8, Error>>>::Ready(None),
+    //@spec             Ok(true) => r is Pending && final(stream).recv_task is Some,
+    //@spec         },
+    //@end
+
+    //@extract src/proto/streams/recv.rs Recv::poll_informational
+    //@subst stream: &mut store::Ptr=>stream: &mut Stream
+    //@subst_re Poll<Option<Result<Response<\(\)>, proto::Error>>>=>Poll<Option<Result<u8, Error>>>
+    //@subst use super::peer::PollMessage::*;=>
+    //@subst Event::Headers(Client(response)) => ==>> Event::Headers(PollMessage::Client(response)) =>
+    //@subst .push_front(&mut self.buffer, Event::Headers(Client(response)));=>.push_front(&mut self.buffer, Event::Headers(PollMessage::Client(response)));
+    //@subst Event::InformationalHeaders(Client(response)) => ==>> Event::InformationalHeaders(PollMessage::Client(response)) =>
+    //@subst if stream.state.ensure_recv_open()? {=>let _o = stream.state.ensure_recv_open(); if let Err(e) = _o { return Poll::Ready(Some(Err(e))); } if _o.unwrap() {
+    //@ret r
+    //@spec     ensures
+    //@spec         *final(self) == (Recv { buffer: final(self).buffer, ..*old(self) }),
+    //@spec         // an interim (1xx) response at the front is handed over, once
+    //@spec         (old(stream).pending_recv@.len() > 0 && old(stream).pending_recv@[0] matches Event::InformationalHeaders(PollMessage::Client(x))) ==>
+    //@spec             final(stream).pending_recv@ == old(stream).pending_recv@.drop_first() && r is Ready,
+    //@spec         // ANYTHING else at the front stays at the front: polling for interim responses never reorders the message
+    //@spec         (old(stream).pending_recv@.len() > 0 && !(old(stream).pending_recv@[0] matches Event::InformationalHeaders(PollMessage::Client(x)))) ==>
+    //@spec             final(stream).pending_recv@ =~= old(stream).pending_recv@,
+    //@spec         // the final response at the front: no more interim responses
+    //@spec         (old(stream).pending_recv@.len() > 0 && old(stream).pending_recv@[0] matches Event::Headers(PollMessage::Client(x))) ==>
+    //@spec             r == Poll::<Option<Result<u8, Error>>>::Ready(None),
+    //@spec         old(stream).pending_recv@.len() == 0 ==> final(stream).pending_recv@ == old(stream).pending_recv@,
+    //@spec         r is Pending ==> final(stream).recv_task is Some,
     //@end
 
     // ---- teardown from outside (C07: when a stream or the connection ends, EVERY task waiting on the stream is woken —
